@@ -328,7 +328,7 @@ theorem symStep_err (site : String) (op : Op) (s : Ctx) (e : Outcome) :
     symStep site op s = .error e → e = .panic site := by
   unfold symStep
   simp only [M.get_bind_err]
-  cases h : (s.symbolTable.step op).2 <;> simp [M.set_bind_err, M.map_err]
+  cases h : (s.symbolTable.step op).2 <;> simp [M.map_err]
 
 theorem symStep_presE {sites} (site : String) (op : Op) (h : site ∈ sites) :
     PresE sites (symStep site op) :=
@@ -338,20 +338,24 @@ theorem symStep_presE {sites} (site : String) (op : Op) (h : site ∈ sites) :
 theorem symExt_step_bind (t : SymTab) (n : Name) (ty : T) : SymExt t (t.step (.bind n ty)).1 := by
   have hinv := C19.inv_step t (.bind n ty)
   have hall := C19.all_prefix_step t (.bind n ty)
-  simp only [SymTab.step] at hinv hall ⊢
-  split
-  · exact SymExt.refl _
-  · rename_i s rest heq
-    split
-    · exact SymExt.refl _
-    · rename_i hc
-      simp only [SymTab.newBindingNoCheck, heq] at hinv hall ⊢
-      simp only [heq, Scope.containsName] at hc
-      have hg : s.get n = none := by simpa using hc
-      simp only [hc] at hinv hall
-      refine ⟨by simp [heq], by simp [heq], ?_, by simpa using hall, by simpa using hinv⟩
+  cases hst : t.stack with
+  | nil =>
+    have : (t.step (.bind n ty)).1 = t := by simp [SymTab.step, hst]
+    rw [this]; exact SymExt.refl _
+  | cons s rest =>
+    cases hg : s.get n with
+    | some id =>
+      have : (t.step (.bind n ty)).1 = t := by simp [SymTab.step, hst, Scope.containsName, hg]
+      rw [this]; exact SymExt.refl _
+    | none =>
+      have : (t.step (.bind n ty)).1 =
+          { stack := s.insert n t.counter :: rest, all := t.all ++ [⟨n, ty⟩],
+            counter := t.counter + 1 } := by
+        simp [SymTab.step, hst, Scope.containsName, hg, SymTab.newBindingNoCheck]
+      rw [this] at hinv hall ⊢
+      refine ⟨by simp [hst], by simp [hst], ?_, hall, hinv⟩
       intro top htop
-      simp only [heq, List.head?_cons, Option.mem_def, Option.some.injEq] at htop
+      simp only [hst, List.head?_cons, Option.mem_def, Option.some.injEq] at htop
       subst htop
       refine ⟨s.insert n t.counter, by simp, ?_, ?_⟩
       · simp [Scope.insert]
@@ -367,17 +371,16 @@ theorem newBinding_pres (name : String) (typ : T) (node : Ast.Span) :
   obtain ⟨out, s1, h1, h2⟩ := (M.bind_ok _ _ s r).mp h
   obtain ⟨_, hs1⟩ := (symStep_ok _ _ _ _).mp h1
   simp only [Prod.mk.injEq] at hs1
-  obtain ⟨rfl, rfl⟩ := hs1
+  obtain ⟨_, rfl⟩ := hs1
   have hsym : SymExt s.symbolTable (s.symbolTable.step (.bind name typ)).1 := symExt_step_bind _ _ _
-  split at h2
-  · simp at h2; subst h2; exact ⟨hsym, List.prefix_refl _⟩
+  cases out <;> simp only [M.fail_ok, M.pure_ok] at h2
+  · subst h2; exact ⟨hsym, List.prefix_refl _⟩
   · obtain ⟨_, s2, h3, h4⟩ := (M.bind_ok _ _ _ r).mp h2
     rw [insertError_ok] at h3
     simp only [Prod.mk.injEq] at h3
     obtain ⟨_, rfl⟩ := h3
     simp at h4; subst h4
     exact ⟨hsym, List.prefix_append _ _⟩
-  · simp at h2
 
 theorem tableLookup_readOnly (name : String) : ReadOnly (tableLookup name) := by
   intro s r h
@@ -385,15 +388,15 @@ theorem tableLookup_readOnly (name : String) : ReadOnly (tableLookup name) := by
   obtain ⟨out, s1, h1, h2⟩ := (M.bind_ok _ _ s r).mp h
   obtain ⟨_, hs1⟩ := (symStep_ok _ _ _ _).mp h1
   simp only [Prod.mk.injEq] at hs1
-  obtain ⟨rfl, rfl⟩ := hs1
+  obtain ⟨_, rfl⟩ := hs1
   rw [step_lookup_state] at h2
-  split at h2 <;> simp at h2 <;> subst h2 <;> rfl
+  cases out <;> simp only [M.fail_ok, M.pure_ok] at h2 <;> subst h2 <;> rfl
 
 theorem currentScopeType_readOnly : ReadOnly currentScopeType := by
   intro s r h
   unfold currentScopeType at h
   simp only [M.get_bind_ok] at h
-  split at h <;> simp at h
+  cases hst : s.symbolTable.stack <;> simp only [hst, M.fail_ok, M.pure_ok] at h
   subst h; rfl
 
 theorem currentScopeType_presE {sites} (h : "current_scope: no scope" ∈ sites) :
@@ -401,7 +404,7 @@ theorem currentScopeType_presE {sites} (h : "current_scope: no scope" ∈ sites)
   refine ⟨fun s e he => ?_⟩
   unfold currentScopeType at he
   simp only [M.get_bind_err] at he
-  split at he <;> simp at he
+  cases hst : s.symbolTable.stack <;> simp only [hst, M.fail_err, M.pure_err] at he
   subst he; exact h
 
 theorem insertConstValue_pres (id : Nat) (v : TExpr) : Pres (insertConstValue id v) := by
@@ -415,8 +418,8 @@ theorem insertConstValue_total (id : Nat) (v : TExpr) : Total (insertConstValue 
 theorem getConstValue_readOnly (id : Nat) : ReadOnly (getConstValue id) := by
   intro s r h
   unfold getConstValue at h
-  obtain ⟨a, s1, h1, rfl⟩ := (M.map_ok _ _ _ _).mp h
-  simp at h1; simp [h1]
+  simp only [M.get_bind_ok, M.pure_ok] at h
+  subst h; rfl
 
 theorem getConstValue_total (id : Nat) : Total (getConstValue id) := by
   intro s e h; unfold getConstValue at h; simp [M.map_err] at h
@@ -432,8 +435,8 @@ theorem pushAnnotation_total (a : String) : Total (pushAnnotation a) := by
 theorem annotationsIsEmpty_readOnly : ReadOnly annotationsIsEmpty := by
   intro s r h
   unfold annotationsIsEmpty at h
-  obtain ⟨a, s1, h1, rfl⟩ := (M.map_ok _ _ _ _).mp h
-  simp at h1; simp [h1]
+  simp only [M.get_bind_ok, M.pure_ok] at h
+  subst h; rfl
 
 theorem annotationsIsEmpty_total : Total annotationsIsEmpty := by
   intro s e h; unfold annotationsIsEmpty at h; simp [M.map_err] at h
@@ -447,7 +450,7 @@ theorem takeAnnotations_pres : Pres takeAnnotations := by
 
 theorem takeAnnotations_total : Total takeAnnotations := by
   intro s e h; unfold takeAnnotations at h
-  simp [M.get_bind_err, M.set_bind_err] at h
+  simp [M.get_bind_err, M.map_err] at h
 
 theorem insertStmt_pres (st : Stmt) : Pres (insertStmt st) := by
   refine ⟨fun s r h => ?_⟩
@@ -557,14 +560,22 @@ theorem redeclLoop_total (node : Ast.Span) (ns : List String) : Total (redeclLoo
     · exact insertError_total _ _ s e h
     · exact ih s1 e h
 
+theorem symExt_standardLibraryGates (t : SymTab) : SymExt t t.standardLibraryGates.1 := by
+  unfold SymTab.standardLibraryGates
+  generalize stdGates = gs
+  exact symExt_foldl_bind gs (t, [])
+
+attribute [local irreducible] SymTab.standardLibraryGates in
 theorem standardLibraryGates_pres (node : Ast.Span) : Pres (standardLibraryGates node) := by
   refine ⟨fun s r h => ?_⟩
   unfold standardLibraryGates at h
   simp only [M.get_bind_ok, M.set_bind_ok] at h
   have h2 := (redeclLoop_pres node _).run _ _ h
-  refine Ext.trans ⟨?_, List.prefix_refl _⟩ h2
-  exact symExt_foldl_bind stdGates (s.symbolTable, [])
+  have h1 : Ext s { s with symbolTable := s.symbolTable.standardLibraryGates.1 } :=
+    ⟨symExt_standardLibraryGates _, List.prefix_refl _⟩
+  exact h1.trans h2
 
+attribute [local irreducible] SymTab.standardLibraryGates in
 theorem standardLibraryGates_total (node : Ast.Span) : Total (standardLibraryGates node) := by
   intro s e h
   unfold standardLibraryGates at h
